@@ -15,7 +15,7 @@ func init() {
 }
 
 var profC17 = Profile{
-	MaxBars: 6, MinBars: 2, MaxSteps: 40, Refresh: []string{"manual", "manual", "autoinj"}, QLens: []int{-1},
+	MaxBars: 6, MinBars: 2, MaxSteps: 40, Refresh: []string{"manual", "manual", "autoinj"}, QLens: []int{-1, -1, 0, 1},
 	Pop: 25, Queue: 70, Prio: true, Ext: 10, Rm: 25, NoPop: 15, AbortW: 3, TicksW: 10,
 	Fillers: []string{"bar", "tag"}, LateAdd: true, Epilogues: []string{"complete", "mixed"}, SyncDecors: 1, PlainDecors: 1, Wraps: true, AddTick: 25,
 }
